@@ -374,6 +374,11 @@ impl Prop for C12Prop {
         // i and a never produce an operator result of their own (they finish by continuing with
         // the chosen branch / the applied program), so a row that carries their Operator field was
         // completed by an unrelated later result and mixes fields of two operators
+        // the hierarchical (-t) view loses a failure that happens inside a nested function frame;
+        // the plain view of the same run (checked first, clause 1) does report it
+        if v.sig == "hierarchy-has-no-failure-entry" {
+            return Some("hierarchical-view-drops-a-failure-inside-a-function-frame");
+        }
         if v.sig == "row-not-true-of-consensus" {
             let row = v.case.get("detail")?.get("row")?;
             let op = row.get("Operator")?.as_str()?;
